@@ -26,9 +26,23 @@ def run(run):
     run_jobs(run, jobs, task, 'mirsym (--features specialized): specialised Value conversions vs the JSON image')
     for c in run.cands:
         if c['key'].startswith('c08:'): c['key'] = 'c17:' + c['key'][4:]
+    # ---- compile + search on the feature builds: core forms on lazily symbolic documents, executed from the MIR generated WITH the feature, against the
+    # reference evaluator (the same oracle the default build is checked against in C01); path models are replayed on the default native build
+    from . import c01 as C01
+    import time as _t
+    cat = C01.catalogue(); n = 36 if run.tier == 'quick' else len(cat)
+    sub = list(dict.fromkeys(cat[(i * 7 + run.seed) % len(cat)] for i in range(n)))
+    for feat, pr in (('sync', prog), ('specialized', PROG_SPEC)):
+        run.deadline = max(run.deadline, _t.time() + (60 if run.tier == 'quick' else 1200))
+        C01.PROG = pr; C01.SEED = run.seed
+        n0 = len(run.cands)
+        run_jobs(run, [('expr', e, 2, 2, run.deadline, 'catalogue/' + feat, 700) for e in sub], C01.task, f'mirsym (--features {feat}): core forms on symbolic documents vs the reference evaluator')
+        for c in run.cands[n0:]:
+            c['key'] = f'c17:{feat}:' + c['key']; c['features'] = [feat]
     run_kani_only(run, NAMES,
         bounds={'specialized': 'x.to_jmespath() == Variable::from_serializable(x) for EVERY x of i8..i64, isize, u8..u64, usize, finite f32/f64, bool, (), and ASCII &str of <= 2 bytes (crate built with --features specialized)',
                 'specialized (M)': 'ToJmespath for serde_json::Value and &Value and the TryFrom impls behind them on solver-chosen Value trees (depth 1 with fully symbolic numbers, depth 2 structure), MIR generated with --features specialized',
-                'sync': 'MIR regenerated with --features sync: the compliance suite (a rotating quarter in quick) reproduces the same outcomes through the encoder'},
+                'sync': 'MIR regenerated with --features sync: the compliance suite (a rotating quarter in quick) reproduces the same outcomes through the encoder',
+                'compile+search on the feature builds': 'catalogue expressions (36 rotating in quick, all in thorough) on documents of depth 2, arrays <= 2, executed from the MIR built with --features sync and with --features specialized, against the reference evaluator; counterexamples are replayed on a replay driver built with the same feature'},
         outside=['equivalence of whole compile/search runs between separately built binaries is a differential test, not a solver query: not claimed', 'Variable / Rcvar / String specialisations (identity wrappers)', 'non-finite floats (the two paths differ by design: error vs null)'],
         assumes=['Rc::drop_slow and fmt::format are stubbed'], features=('specialized',), keyprefix='c17')
